@@ -332,6 +332,8 @@ func Mixed(tier, per int) []aa.Rule {
 			n++
 		}
 	}
+	// comment lines are rules of a paragraph too (ParseRules produces one per `#` line): they take part in the kind order
+	out = append(out, &aa.Comment{Base: aa.Base{IsLineRule: true, Comment: " a note"}}, &aa.Comment{Base: aa.Base{IsLineRule: true, Comment: " another note"}})
 	return out
 }
 
